@@ -5,7 +5,7 @@ from vlib.runner import Batch
 
 ID = "C04"
 LEAN_PROPS = ["FcpptProofs.Props.C04"]
-HARNESS = {"src": "harness/c04.cpp"}
+HARNESS = {"src": "harness/c04.cpp", "repo_srcs": ["libs/core/src/type_name.cpp", "libs/core/src/type_name_from_index.cpp"]}
 TIE = ("hand-written model (FcpptModel/Model/C04.lean: every combinator with its has_value/has_success/holds_type test and "
        "get_unsafe, continuations in a state+fault monad) + differential correspondence against the real templates")
 RULE = ("one op = one call of one combinator on values over D={0,1,2} with continuations given as complete function tables; "
@@ -208,6 +208,7 @@ def batches(rng, tier):
                 note="apply/2 combine maybe_multi/2 either-apply/2 variant-apply/1 and the ternary apply/3 maybe_multi/3 either-apply/3: "
                      "every input tuple and value category, sampled function tables")
     yield from blind_spot_batches(rng, tier)
+    yield from api_batches(rng, tier)
 
 
 def with_x(vals, n=3):
@@ -328,6 +329,100 @@ def blind_spot_batches(rng, tier):
                      "combinator, the calls made up to then are the model's, and an lvalue source is unchanged afterwards; "
                      "exhaustive for the unary operations (all tables over D+{throw} with a throwing entry), first_success on all "
                      "lists <= 4 with throwing functions, loop with a throwing body")
+
+
+REFS = ["N", "J&0", "J&1", "J&2"]
+PTRS = ["P-", "P&0", "P&1", "P&2"]
+DYN_LISTS = ["1", "2", "12", "21", "32", "123", "231", "321"]
+
+
+def api_batches(rng, tier):
+    """The public optional / either / variant / monad API outside the anchor list."""
+    thorough = tier == "thorough"
+    r = rng.fork("api")
+    cells = tables(D)
+    dx = list(D) + ["X"]
+
+    ops = []
+    ops += [f"o.to_cont {c} {o}" for c, o in prod(CATS, OPT)]
+    ops += [f"o.copy_value {c} {o} {cs}" for c, o, cs in prod(LC, REFS, cells)]
+    ops += [f"o.deref {k} {o} {cs}" for k, o, cs in prod("pi", REFS, cells)]
+    ops += [f"o.deref_up {o}" for o in OPT]
+    ops += [f"o.mvm1 {c} {o}" for c, o in prod(CATS, OPT)]
+    ops += [f"o.mvm2 {c} {a} {b}" for c, a, b in prod(CATS + CATS2_MIXED, OPT, OPT)]
+    ops += [f"o.mvm3 {c} {a} {b} {d}" for c, a, b, d in prod(CATS3, OPT, OPT, OPT)]
+    ops += [f"o.assign {o} {v}" for o, v in prod(OPT, D)]
+    ops += [f"o.set {o} {v}" for o, v in prod(OPT[1:], D)]
+    ops += [f"o.from_ptr {p} {cs}" for p, cs in prod(PTRS, cells)]
+    ops += [f"o.to_ptr {o} {cs}" for o, cs in prod(REFS, cells)]
+    ops += [f"o.to_exc {c} {o}" for c, o in prod(CATS, OPT)]
+    ops += [f"o.make {c} {v}" for c, v in prod(CATS, D)]
+    ops += [f"o.out {o}" for o in OPT]
+    ops += ["o.nothing"]
+    yield Batch("api-optional", ops, exhaustive=True,
+                note="to_container copy_value deref (pointer, iterator, unique_ptr) maybe_void_multi/1,2,3 assign get_unsafe-write "
+                     "from_pointer to_pointer to_exception make operator<< nothing: all optionals / references into all 27 cell "
+                     "contents x value categories (mixed ones for maybe_void_multi)")
+
+    ops = []
+    ops += [f"e.cmp {a} {b}" for a, b in prod(EITH, EITH)]
+    ops += [f"e.cmp.same {a}" for a in EITH]
+    ops += [f"e.construct {b} {sv} {fv}" for b, sv, fv in prod("tf", dx, dx)]
+    ops += [f"e.err_from_opt {c} {o}" for c, o in prod(CATS, OPT)]
+    ops += [f"e.mk_fail {c} {v}" for c, v in prod(CATS, D)]
+    ops += [f"e.mk_succ {c} {v}" for c, v in prod(CATS, D)]
+    ops += [f"e.out {e}" for e in EITH]
+    ops += [f"e.to_exc {c} {e}" for c, e in prod(CATS, EITH)]
+    ops += [f"e.set {e} {v}" for e, v in prod(EITH, D)]
+    ftab = tables(["u"] + dx)
+    ops += [f"e.seq_err {c} {l} {f}" for c, l, f in prod(CATS, lists(D), ftab)]
+    yield Batch("api-either", ops, exhaustive=True,
+                note="== != (all 36 pairs, and an object with itself) construct error_from_optional make_failure make_success "
+                     "operator<< to_exception get_*_unsafe-write; sequence_error on all vectors over D up to length 4 x all 125 "
+                     "functions D -> {success, failure 0..2, throws} x 3 value categories")
+
+    ops = []
+    ops += [f"v.to_opt_ref {c} {j} {v} {nv}" for c, j, v, nv in prod(LC, D, VAR, D)]
+    ops += [f"v.get {v} {nv}" for v, nv in prod(VAR, D)]
+    ops += [f"v.out {v}" for v in VAR]
+    ops += [f"v.tinfo {v}" for v in VAR]
+    ops += [f"v.dyn L {l} {d}" for l, d in prod(DYN_LISTS, "0123")]
+    ops += [f"v.dyn C {l} {d}" for l, d in prod(["12", "21"], "0123")]
+    yield Batch("api-variant", ops, exhaustive=True,
+                note="to_optional_ref (written through for non-const) free get_unsafe (read, written) operator<< type_info "
+                     "current_type_name is_invalid; dynamic_cast_ with 8 type lists (all orders of a base and its derived class) "
+                     "x 4 dynamic types, const flavour")
+
+    ops = []
+    cats = CATS if thorough else [r.choice(CATS)]
+    ops += [f"m.chain2.o {c} {o} {f} {g}" for c, o, f, g in prod(cats, OPT, T_DO, T_DO)]
+    if thorough:
+        c = r.choice(CATS)
+        ops += [f"m.chain2.e {c} {e} {f} {g}" for e, f, g in prod(EITH, T_DE, T_DE)]
+    else:
+        ops += [f"m.chain2.e {r.choice(CATS)} {r.choice(EITH)} {r.choice(T_DE)} {r.choice(T_DE)}" for _ in range(20000)]
+    ops += [f"m.chain0.o {c} {o}" for c, o in prod(CATS, OPT)]
+    ox = OPT + ["X"]
+    ex = EITH + ["X"]
+    for c, o, f in prod(CATS, OPT, T_DO):
+        for _ in range(6 if thorough else 2):
+            ops.append(f"m.do3.o {c} {o} {f} {rtable(r, OPT, 9)}")
+    for c, e, f in prod(CATS, EITH, T_DE):
+        for _ in range(4 if thorough else 1):
+            ops.append(f"m.do3.e {c} {e} {f} {rtable(r, EITH, 9)}")
+    for c, o in prod(CATS, OPT):
+        for _ in range(20):
+            ops.append(f"m.chain2.o {c} {o} {rtable(r, ox, 3)} {rtable(r, ox, 3)}")
+            ops.append(f"m.do3.o {c} {o} {rtable(r, ox, 3)} {rtable(r, ox, 9)}")
+    for c, e in prod(CATS, EITH):
+        for _ in range(20):
+            ops.append(f"m.chain2.e {c} {e} {rtable(r, ex, 3)} {rtable(r, ex, 3)}")
+            ops.append(f"m.do3.e {c} {e} {rtable(r, ex, 3)} {rtable(r, ex, 9)}")
+    ops += [f"m.ret.o {v}" for v in D] + [f"m.ret.e {v}" for v in D]
+    yield Batch("api-monad", ops,
+                note="monad::chain (optional: all 64x64 pairs of functions; either: sampled, all 216x216 in the thorough tier), "
+                     "chain without lambdas, monad::do_ with a binary second lambda (all first functions, sampled 9-entry tables), "
+                     "tables with throwing entries, return_")
 
 
 MANIFEST = {
